@@ -935,7 +935,10 @@ fn gen_rt(rng: &mut Rng) -> Vec<Op> {
         ops.push(Op::Maintain(0));
         for i in 0..k { if !dead.contains(&i) { live.push(i); } }
     }
-    let n = rng.range(1, 8) as usize;
+    // wide cases: few marked roots, references spread over the whole (mostly unmarked) population, so that one
+    // round of the recursive walk discovers several unmarked entities at once
+    let wide = rng.chance(1, 4);
+    let n = if wide { rng.range(5, 10) } else { rng.range(1, 8) } as usize;
     let target = n.max(live.len() + 1);
     while live.len() < target {
         ops.push(Op::Create(0, rng.chance(1, 3)));
@@ -944,7 +947,8 @@ fn gen_rt(rng: &mut Rng) -> Vec<Op> {
     }
     if rng.chance(1, 2) { ops.push(Op::Maintain(0)); }
     // marked subset
-    let mut marked: Vec<usize> = match rng.below(10) {
+    let mut marked: Vec<usize> = match if wide { 10 } else { rng.below(10) } {
+        10 => { let mut v = vec![*rng.pick(&live)]; if rng.chance(1, 3) { let y = *rng.pick(&live); if !v.contains(&y) { v.push(y); } } v }
         0 => Vec::new(),
         1 | 2 | 3 => live.clone(),
         _ => {
@@ -958,10 +962,11 @@ fn gen_rt(rng: &mut Rng) -> Vec<Op> {
     let marks_first = rng.chance(1, 2);
     if marks_first { ops.extend(mark_ops.iter().cloned()); }
     // references: clean cases only point at marked entities
-    let clean = rng.chance(2, 5);
+    let clean = !wide && rng.chance(2, 5);
     let pool: Vec<usize> = if marked.is_empty() { live.clone() } else { marked.clone() };
     let pick_ref = |rng: &mut Rng| -> usize {
-        if clean || rng.chance(85, 100) { *rng.pick(&pool) }
+        if wide && rng.chance(9, 10) { *rng.pick(&live) }
+        else if clean || rng.chance(85, 100) { *rng.pick(&pool) }
         else if !dead.is_empty() && rng.chance(1, 4) { *rng.pick(&dead) }
         else { *rng.pick(&live) }
     };
